@@ -90,6 +90,12 @@ theorem C07_independent_partial (cfg : Cfg) (f : Forest) (op : Op) (t : Nat)
            · exact hb
            · simp only [Bool.and_false, Bool.false_eq_true, if_false]
              exact addRoot_keeps _ _ b (C07_frame f _ _ b hb hdis))
+        | (split
+           · exact hb
+           · split
+             · exact hb
+             · simp only [Bool.and_false, Bool.false_eq_true, if_false]
+               exact addRoot_keeps _ _ b (C07_frame f _ _ b hb hdis))
     · exact hb
 
 /-! ## Flags (F17) -/
